@@ -230,16 +230,15 @@ theorem cut_append (sep : Char) (a b : Bytes) (h : sep ∉ a) : cut sep (a ++ se
     have ht : sep ∉ t := fun e => h (by simp [e])
     simp [cut, hc, ih ht]
 
-theorem question_not_valid (p : Bytes) (h : validEncodedPath p = true) : '?' ∉ p := by
+theorem not_mem_of_contains_false {p : Bytes} (h : p.contains '?' = false) : '?' ∉ p := by
   intro hm
-  have := (List.all_eq_true.mp h) '?' hm
-  revert this
-  decide
+  have : p.contains '?' = true := List.contains_iff_mem.mpr hm
+  rw [h] at this
+  exact Bool.noConfusion this
 
 /-- the path and the query of the request line are recovered from the request target -/
-theorem cut_target (lr : LReq) (h : validEncodedPath lr.rawPath = true) :
+theorem cut_target (lr : LReq) (hq : '?' ∉ lr.rawPath) :
     (cut '?' lr.target).1 = lr.rawPath ∧ (cut '?' lr.target).2.1 = lr.query := by
-  have hq := question_not_valid _ h
   unfold LReq.target
   split
   · rename_i he
@@ -251,13 +250,46 @@ theorem cut_target (lr : LReq) (h : validEncodedPath lr.rawPath = true) :
 theorem pathUnescapeL_slash (t : Bytes) : pathUnescapeL ('/' :: t) = (pathUnescapeL t).map ('/' :: ·) :=
   pathUnescapeL_cons_ne (by decide) t
 
-/-- **`net/url` round trip**: for a path written in valid encoding, `URL.EscapedPath()` of the parsed request target
-    is the path as written, and `RawQuery` the query as written -/
-theorem go_url_roundtrip (lr : LReq) (h : Spec.validPath lr.rawPath = true) :
-    ∃ u, goParseTarget lr.target = some u ∧ u.escapedPath = lr.rawPath ∧ u.rawQuery = lr.query := by
-  simp only [Spec.validPath, Bool.and_eq_true] at h
-  obtain ⟨⟨hs, hv⟩, hu⟩ := h
-  obtain ⟨hc1, hc2⟩ := cut_target lr hv
+theorem pathCharOK_hexDigit : ∀ n : Nat, pathCharOK (hexDigit n) = true
+  | 0 | 1 | 2 | 3 | 4 | 5 | 6 | 7 | 8 | 9 | 10 | 11 | 12 | 13 | 14 | 15 => by decide
+  | n + 16 => by
+    have : hexDigit (n + 16) = '0' := by simp [hexDigit, List.getD]
+    rw [this]; decide
+
+/-- a path in valid encoding is its own received spelling -/
+theorem receivedL_of_valid (p : Bytes) (h : validEncodedPath p = true) : receivedL p = p := by
+  induction p with
+  | nil => rfl
+  | cons c t ih =>
+    simp only [validEncodedPath, List.all_cons, Bool.and_eq_true] at h
+    have ht : receivedL t = t := ih (by simpa [validEncodedPath] using h.2)
+    simp only [receivedL, List.flatMap_cons, h.1, if_true] at ht ⊢
+    rw [ht]; rfl
+
+theorem validEncoded_append (a b : Bytes) :
+    validEncodedPath (a ++ b) = (validEncodedPath a && validEncodedPath b) := by
+  simp [validEncodedPath]
+
+/-- the default encoding Go produces consists of octets that may stand in a path -/
+theorem validEncoded_escapePath (s : Bytes) : validEncodedPath (escapePath s) = true := by
+  induction s with
+  | nil => rfl
+  | cons c t ih =>
+    simp only [escapePath, List.flatMap_cons] at ih ⊢
+    rw [validEncoded_append, ih, Bool.and_true]
+    by_cases hc : shouldEscapePath c = true
+    · simp [hc, pctEncode, validEncodedPath, pathCharOK_hexDigit]
+      decide
+    · simp [hc, validEncodedPath, pathCharOK]
+
+/-- **The raw path of the HTTP based services is the received spelling.** Whatever Go's parser makes of the request
+    target (`RawPath` kept or dropped as "default encoding"), `escapedPath` of `extract_url.go` yields the path as
+    written with exactly the octets encoded that may not stand in a path, and the query as written. -/
+theorem http_received_path (lr : LReq) (h : Spec.validPath lr.rawPath = true) :
+    ∃ u, goParseTarget lr.target = some u ∧ httpEscapedPath u = receivedL lr.rawPath ∧ u.rawQuery = lr.query := by
+  simp only [Spec.validPath, Bool.and_eq_true, Bool.not_eq_true'] at h
+  obtain ⟨⟨⟨hs, hq⟩, _⟩, hu⟩ := h
+  obtain ⟨hc1, hc2⟩ := cut_target lr (not_mem_of_contains_false hq)
   obtain ⟨path, hp⟩ := Option.isSome_iff_exists.mp hu
   refine ⟨{ path := path, rawPath := if lr.rawPath = escapePath path then [] else lr.rawPath,
              rawQuery := lr.query }, by simp only [goParseTarget, hc1, hc2, hp], ?_, rfl⟩
@@ -272,9 +304,12 @@ theorem go_url_roundtrip (lr : LReq) (h : Spec.validPath lr.rawPath = true) :
     | none => simp [hq] at hp
     | some q => simp [hq] at hp; rw [← hp]; simp
   by_cases he : lr.rawPath = escapePath path
-  · simp [GoURL.escapedPath, he, hstar]
+  · have hv : receivedL lr.rawPath = lr.rawPath := by
+      rw [he]; exact receivedL_of_valid _ (validEncoded_escapePath path)
+    rw [hv]
+    simp [httpEscapedPath, GoURL.escapedPath, he, hstar]
   · have hne : lr.rawPath.isEmpty = false := by rw [ht]; rfl
-    simp [GoURL.escapedPath, he, hne, hv, hp]
+    simp [httpEscapedPath, he, hne]
 
 /-! ## The view functions of both request contexts against the reference semantics -/
 
@@ -345,15 +380,15 @@ theorem stdCookie_nil (name : Bytes) : stdCookie [] name = [] := by
 /-- what `toHTTP` yields for a well-formed request -/
 theorem toHTTP_some (lr : LReq) (h : Spec.validPath lr.rawPath = true) :
     ∃ r, toHTTP lr = some r ∧ r.method = lr.method ∧ r.host = lr.host ∧ r.tls = lr.tls ∧
-      r.url.escapedPath = lr.rawPath ∧ r.url.rawQuery = lr.query ∧ r.header = group canonKey lr.headers ∧
+      httpEscapedPath r.url = receivedL lr.rawPath ∧ r.url.rawQuery = lr.query ∧ r.header = group canonKey lr.headers ∧
       r.body = (match lr.body with | none => none | some b => if b.isEmpty then none else some b) := by
-  obtain ⟨u, hu, he, hq⟩ := go_url_roundtrip lr h
+  obtain ⟨u, hu, he, hq⟩ := http_received_path lr h
   refine ⟨{ method := lr.method, host := lr.host, tls := lr.tls, url := u, header := group canonKey lr.headers,
             body := match lr.body with | none => none | some b => if b.isEmpty then none else some b },
     by simp only [toHTTP, hu] <;> rfl, rfl, rfl, rfl, he, hq, rfl, rfl⟩
 
 theorem httpObj_eq (lr : LReq) (r : HttpReq) (hm : r.method = lr.method) (hh : r.host = lr.host)
-    (ht : r.tls = lr.tls) (he : r.url.escapedPath = lr.rawPath) (hq : r.url.rawQuery = lr.query) :
+    (ht : r.tls = lr.tls) (he : httpEscapedPath r.url = receivedL lr.rawPath) (hq : r.url.rawQuery = lr.query) :
     httpObj r = Spec.obj lr := by
   simp only [httpObj, Spec.obj, Spec.url, LReq.scheme, hm, hh, ht, he, hq]
 
@@ -379,22 +414,29 @@ theorem httpFuncs_eq (D : Decoder) (lr : LReq) (r : HttpReq) (hp : Spec.plainHea
     | none => rfl
     | some b => by_cases hbe : b.isEmpty = true <;> simp [hbe]
 
-theorem envoyObj_eq (pack : Bool) (lr : LReq) (h : Spec.validPath lr.rawPath = true) :
-    envoyObj Impl.fixed (toCheck pack lr) = Spec.obj lr := by
-  simp only [Spec.validPath, Bool.and_eq_true] at h
-  obtain ⟨hc1, hc2⟩ := cut_target lr h.1.2
-  simp [envoyObj, envoyURL, Impl.fixed, toCheck, Spec.obj, Spec.url, hc1, hc2]
+theorem envoyObj_eq (I : Impl) (pack : Bool) (lr : LReq) (hI : I.splitsTarget = true)
+    (hq : '?' ∉ lr.rawPath) (he : I.encodesPath = true ∨ validEncodedPath lr.rawPath = true) :
+    envoyObj I (toCheck pack lr) = Spec.obj lr := by
+  obtain ⟨hc1, hc2⟩ := cut_target lr hq
+  have hr : (if I.encodesPath = true then receivedL lr.rawPath else lr.rawPath) = receivedL lr.rawPath := by
+    rcases he with he | he
+    · simp [he]
+    · split
+      · rfl
+      · exact (receivedL_of_valid _ he).symm
+  simp [envoyObj, envoyURL, hI, toCheck, Spec.obj, Spec.url, hc1, hc2, hr]
 
-theorem envoyHeader_eq (pack : Bool) (lr : LReq) (hp : Spec.plainHeaders lr = true) (name : Bytes) :
-    envoyHeader Impl.fixed (toCheck pack lr) name = Spec.header lr name := by
-  simp only [envoyHeader, Impl.fixed, if_true, envoyHeaders_toCheck pack lr hp, Spec.headersMap, Spec.header,
+theorem envoyHeader_eq (I : Impl) (pack : Bool) (lr : LReq) (hI : I.canonHeader = true)
+    (hp : Spec.plainHeaders lr = true) (name : Bytes) :
+    envoyHeader I (toCheck pack lr) name = Spec.header lr name := by
+  simp only [envoyHeader, hI, if_true, envoyHeaders_toCheck pack lr hp, Spec.headersMap, Spec.header,
     lookup_joined_map]
   rfl
 
-theorem envoyCookie_eq (pack : Bool) (lr : LReq) (hp : Spec.plainHeaders lr = true)
-    (hc : Spec.oneCookieLine lr = true) (name : Bytes) :
-    envoyCookie Impl.fixed (toCheck pack lr) name = Spec.cookie lr name := by
-  simp only [envoyCookie, Impl.fixed, if_true, envoyHeaders_toCheck pack lr hp, Spec.headersMap, Spec.cookie]
+theorem envoyCookie_eq (I : Impl) (pack : Bool) (lr : LReq) (hI : I.stdCookies = true)
+    (hp : Spec.plainHeaders lr = true) (hc : Spec.oneCookieLine lr = true) (name : Bytes) :
+    envoyCookie I (toCheck pack lr) name = Spec.cookie lr name := by
+  simp only [envoyCookie, hI, if_true, envoyHeaders_toCheck pack lr hp, Spec.headersMap, Spec.cookie]
   have hl := lookup_group canonKey (canonKey b!"Cookie") lr.headers
   rw [selected_eq_headerValues, cookieKey_canon] at hl
   rw [lookup_map_val, hl]
@@ -404,23 +446,25 @@ theorem envoyCookie_eq (pack : Bool) (lr : LReq) (hp : Spec.plainHeaders lr = tr
   | [v], _ => simp [join]
   | _ :: _ :: _, hc => simp at hc
 
-theorem envoyBody_eq (D : Decoder) (pack : Bool) (lr : LReq) (hp : Spec.plainHeaders lr = true) :
-    envoyBody Impl.fixed D (toCheck pack lr) = Spec.body D lr := by
-  have hh := envoyHeader_eq pack lr hp b!"Content-Type"
+theorem envoyBody_eq (I : Impl) (D : Decoder) (pack : Bool) (lr : LReq) (hI : I.canonHeader = true)
+    (hB : I.bodyFallback = true) (hp : Spec.plainHeaders lr = true) :
+    envoyBody I D (toCheck pack lr) = Spec.body D lr := by
+  have hh := envoyHeader_eq I pack lr hI hp b!"Content-Type"
   unfold envoyBody Spec.body
   rw [hh]
   cases pack <;> cases hb : lr.body with
-  | none => simp [Impl.fixed, toCheck, hb]
-  | some b => by_cases hbe : b.isEmpty = true <;> simp [Impl.fixed, toCheck, hb, hbe]
+  | none => simp [hB, toCheck, hb]
+  | some b => by_cases hbe : b.isEmpty = true <;> simp [hB, toCheck, hb, hbe]
 
-theorem envoyFuncs_eq (D : Decoder) (pack : Bool) (lr : LReq) (hp : Spec.plainHeaders lr = true)
+theorem envoyFuncs_eq (I : Impl) (D : Decoder) (pack : Bool) (lr : LReq) (hH : I.canonHeader = true)
+    (hC : I.stdCookies = true) (hB : I.bodyFallback = true) (hp : Spec.plainHeaders lr = true)
     (hc : Spec.oneCookieLine lr = true) :
-    envoyFuncs Impl.fixed D (toCheck pack lr) = Spec.funcs D lr := by
+    envoyFuncs I D (toCheck pack lr) = Spec.funcs D lr := by
   unfold envoyFuncs Spec.funcs
   congr 1
-  · funext name; exact envoyHeader_eq pack lr hp name
-  · funext name; exact envoyCookie_eq pack lr hp hc name
-  · exact envoyBody_eq D pack lr hp
+  · funext name; exact envoyHeader_eq I pack lr hH hp name
+  · funext name; exact envoyCookie_eq I pack lr hC hp hc name
+  · exact envoyBody_eq I D pack lr hH hB hp
 
 /-! ## The run through the `Request()` cell -/
 
